@@ -55,11 +55,12 @@ def annotate(prog, pred, depth):
 def gen_case(rng):
   prog = Program()
   shape = rng.choice(['counter', 'tc-bag', 'tc-set', 'shortest', 'two-cycle', 'two-cycle', 'three-cycle',
-                      'self-loop-mutual', 'multibody-cycle', 'mutual-counter', 'mutual-counter-flat'])
+                      'self-loop-mutual', 'multibody-cycle', 'mutual-counter', 'mutual-counter-flat', 'ring-counter',
+                      'ring-counter'])
   depth = rng.choice([None, None, 0, 1, 2, 5, 8, 12, 20, 21, 22, 25, 30])
   if shape in ('tc-bag',) and depth is not None and depth > 8:
     depth = rng.choice([None, 2, 5])     # multiplicities explode with depth
-  if shape not in ('counter', 'tc-set', 'two-cycle', 'three-cycle', 'mutual-counter') and depth in (12, 20):
+  if shape not in ('counter', 'tc-set', 'two-cycle', 'three-cycle', 'mutual-counter', 'ring-counter') and depth in (12, 20):
     depth = rng.choice([None, 5, 21, 22])    # flat unfolding in one statement grows too fast beyond ~10 levels
   d = 8 if depth is None else depth
   n = rng.randint(3, 5)
@@ -138,6 +139,22 @@ def gen_case(rng):
       derived(prog, a, ['col0'], ['int'], ra, 'distinct')
       derived(prog, b, ['col0'], ['int'], rb, 'distinct')
       cover = [a, b]
+    elif shape == 'ring-counter':
+      # a ring of 4-5 members with the base case in one member only: a member gets its first facts after several
+      # rounds, and the values reached depend on the exact number of applications
+      k = rng.choice([4, 5])
+      names = rng.choice([['A', 'B', 'C', 'D', 'G'], ['Mm', 'Kk', 'Zz', 'Bb', 'Qq']])[:k]
+      bound = rng.choice([40, 100])
+      nv = V('n')
+      derived(prog, names[0], ['col0'], ['int'],
+              [rule(names[0], [['col0', L(0)]], None, True),
+               rule(names[0], [['col0', OP('+', nv, L(1))]], AND(atom(names[-1], nv), {'test': OP('<', nv, L(bound))}), True)], 'distinct')
+      for i in range(1, k):
+        derived(prog, names[i], ['col0'], ['int'], [rule(names[i], [['col0', nv]], atom(names[i - 1], nv), True)], 'distinct')
+      cover = list(names)
+      if depth in (12, 20):
+        depth = rng.choice([5, 8, 21, 25, 26, 29, 31])
+        d = depth
     else:   # multibody-cycle: several aggregating bodies inside a 2-cycle
       a, b = 'A', 'B'
       derived(prog, a, ['col0', 'logica_value'], ['int', 'int'],
@@ -236,7 +253,7 @@ def run(ck):
     d = p.depth
     c = max(len(x) for x in p.rec)
     reqs.append(model_req(p, d + 1))                 # exactly depth+1 simultaneous applications
-    reqs.append(model_req(p, (d + 1) * c + 2 if p.info['shape'].startswith('mutual-counter') else min((d + 1) * c + 2, 40)))   # any sequential unfolding of depth+1 levels (<=5 nodes: converged by 40)
+    reqs.append(model_req(p, (d + 2) * c + 2 if (p.info['shape'].startswith('mutual-counter') or p.info['shape'] == 'ring-counter') else min((d + 1) * c + 2, 40)))   # any sequential unfolding of depth+1 levels (<=5 nodes: converged by 40)
     reqs.append(model_req(p, 1))                     # depth 0 (for the non-triviality rule)
   models = drv.ask_parallel(reqs)
   reals = core.pmap(job, progs)
